@@ -2,7 +2,7 @@
 //! uniformly spaced instants; sinusoids within the classical interpolation bound.
 
 use crate::cfg::{Cfg, Degree, Kind};
-use crate::e2::resample_all;
+use crate::e2::resample_all_pre;
 use crate::frame::{Check, JournalFile, Tier};
 use crate::run::Flt;
 use serde_json::{json, Map, Value};
@@ -15,8 +15,24 @@ const CHUNKS: [usize; 5] = [1, 2, 5, 32, 257];
 #[derive(Clone, Debug)]
 struct Item {
     degree: Degree,
+    /// ratio in force while the stream runs
     ratio: f64,
     kind: Kind,
+    /// (construction ratio, max relative ratio, relative ratio set without ramp on the fresh
+    /// resampler): the stream runs at a ratio that is not the construction ratio
+    pre: Option<(f64, f64, f64)>,
+}
+
+impl Item {
+    fn cfg(&self, chunk: usize) -> Cfg {
+        match self.pre {
+            Some((r0, m, _)) => Cfg::fast(self.kind, r0, m, chunk, self.degree),
+            None => Cfg::fast(self.kind, self.ratio, 1.0, chunk, self.degree),
+        }
+    }
+    fn rel(&self) -> Option<f64> {
+        self.pre.map(|p| p.2)
+    }
 }
 
 fn items(tier: Tier) -> Vec<Item> {
@@ -25,7 +41,12 @@ fn items(tier: Tier) -> Vec<Item> {
     for degree in Degree::ALL {
         for &ratio in &ratios {
             for kind in [Kind::FI, Kind::FO] {
-                v.push(Item { degree, ratio, kind });
+                v.push(Item { degree, ratio, kind, pre: None });
+            }
+        }
+        for (r0, m, x) in [(1.0, 4.0, 4.0), (1.0, 4.0, 0.25), (0.5, 2.0, 1.7), (2.0, 2.0, 0.6)] {
+            for kind in [Kind::FI, Kind::FO] {
+                v.push(Item { degree, ratio: r0 * x, kind, pre: Some((r0, m, x)) });
             }
         }
     }
@@ -52,21 +73,22 @@ fn fail(acc: &mut Acc, cfg: &Cfg, sig: &str, detail: String, point: String) {
 
 /// The instants at which the output frames are evaluated, from the same configuration with
 /// `Linear` (which reproduces the index signal exactly); control is degree independent.
-fn instants(cfg: &Cfg, n_in: usize) -> Result<Vec<f64>, String> {
+fn instants(cfg: &Cfg, n_in: usize, rel: Option<f64>) -> Result<Vec<f64>, String> {
     let mut c = cfg.clone();
     c.degree = Degree::Linear;
     let base = 1048576.0;
     let x: Vec<f64> = (0..n_in).map(|n| n as f64 + base).collect();
-    let s = resample_all::<f64>(&c, &x)?;
+    let s = resample_all_pre::<f64>(&c, &x, rel)?;
     Ok(s.out.iter().map(|y| y - base).collect())
 }
 
 fn one<T: Flt>(acc: &mut Acc, item: &Item, chunk: usize, journal: Option<&JournalFile>) -> Result<(), String> {
-    let cfg = Cfg::fast(item.kind, item.ratio, 1.0, chunk, item.degree);
+    let cfg = item.cfg(chunk);
+    let rel = item.rel();
     // enough input for six chunks of either variant and a minimum length
     let n_in = (6.0 * chunk as f64 * (1.0f64).max(1.0 / item.ratio)) as usize + 200;
     let n_in = n_in.min(20000);
-    let tau = instants(&cfg, n_in)?;
+    let tau = instants(&cfg, n_in, rel)?;
     // uniform spacing 1/ratio
     let step = 1.0 / item.ratio;
     let first_valid = tau.iter().position(|t| *t >= 4.0).unwrap_or(tau.len());
@@ -85,7 +107,7 @@ fn one<T: Flt>(acc: &mut Acc, item: &Item, chunk: usize, journal: Option<&Journa
         let x: Vec<f64> = (0..n_in).map(|n| (n as f64 / 64.0).powi(k as i32)).collect();
         // in f32 the input itself is rounded: compare with the polynomial through the rounded
         // samples only up to the conditioning of the interpolation formula
-        let s = resample_all::<T>(&cfg, &x)?;
+        let s = resample_all_pre::<T>(&cfg, &x, rel)?;
         acc.evals += 1;
         let n = s.out.len().min(tau.len());
         let mut worst = 0.0f64;
@@ -188,7 +210,7 @@ fn one<T: Flt>(acc: &mut Acc, item: &Item, chunk: usize, journal: Option<&Journa
         for f in [0.05f64, 0.1, 0.2, 0.4] {
             let w = std::f64::consts::PI * f;
             let x: Vec<f64> = (0..n_in).map(|n| (w * n as f64 + 0.3).sin()).collect();
-            let s = resample_all::<f64>(&cfg, &x)?;
+            let s = resample_all_pre::<f64>(&cfg, &x, rel)?;
             acc.evals += 1;
             let n = s.out.len().min(tau.len());
             let mut worst = 0.0f64;
@@ -214,10 +236,11 @@ fn one<T: Flt>(acc: &mut Acc, item: &Item, chunk: usize, journal: Option<&Journa
 /// window lies inside one tooth the output must be that polynomial at the instant; all values
 /// stay small, so single precision resolves the output to a few eps everywhere in the chunk.
 fn sawtooth<T: Flt>(acc: &mut Acc, item: &Item, chunk: usize, journal: Option<&JournalFile>) -> Result<(), String> {
-    let cfg = Cfg::fast(item.kind, item.ratio, 1.0, chunk, item.degree);
+    let cfg = item.cfg(chunk);
+    let rel = item.rel();
     let span = chunk as f64 * if item.kind == Kind::FO { 1.0 / item.ratio } else { 1.0 };
     let n_in = (2.2 * span) as usize + 400;
-    let tau = instants(&cfg, n_in)?;
+    let tau = instants(&cfg, n_in, rel)?;
     let deg = item.degree.degree();
     let eps_t = if T::IS_F32 { f32::EPSILON as f64 } else { f64::EPSILON };
     let (lo, hi) = match item.degree {
@@ -234,7 +257,7 @@ fn sawtooth<T: Flt>(acc: &mut Acc, item: &Item, chunk: usize, journal: Option<&J
         }
         let tooth = |n: f64| (((n % 64.0) - 32.0) / 8.0).powi(k as i32);
         let x: Vec<f64> = (0..n_in).map(|n| tooth(n as f64)).collect();
-        let s = resample_all::<T>(&cfg, &x)?;
+        let s = resample_all_pre::<T>(&cfg, &x, rel)?;
         acc.evals += 1;
         let n = s.out.len().min(tau.len());
         let (mut worst, mut worst_at, mut count) = (0.0f64, 0usize, 0u64);
@@ -328,7 +351,7 @@ impl Check for C08 {
             sawtooth::<f64>(&mut acc, &item, chunk, journal)?;
             sawtooth::<f32>(&mut acc, &item, chunk, journal)?;
         }
-        let label = format!("{} {} r={:?}", item.kind.name(), item.degree.name(), item.ratio);
+        let label = format!("{} {} r={:?}{}", item.kind.name(), item.degree.name(), item.ratio, item.pre.map(|p| format!(" (constructed at {}, set_resample_ratio_relative({}, false))", p.0, p.2)).unwrap_or_default());
         let sharp_min = acc.sharp.iter().cloned().fold(f64::INFINITY, f64::min);
         Ok(json!({
             "label": label, "evaluations": acc.evals, "nontrivial": acc.nontrivial,
@@ -348,7 +371,7 @@ impl Check for C08 {
         crate::frame::replay_by_item(self, replay)
     }
     fn rule(&self, _tier: Tier) -> String {
-        "full product of degree(5) x ratio x {FastFixedIn, FastFixedOut} x chunk x {f32,f64} x monomial (n/64)^k for k = 0..degree (must be exact to rounding) and k = degree+1 (must equal the polynomial through exactly the documented nodes, error term prod(t-node)/64^k included), every output frame of six chunks whose window lies in supplied data; Nearest: the input sample at or just before the instant, bit-exact; four tones against the classical bound C_d*(pi f)^(d+1); large chunks (4096, 32768 and 100000 frames): sawtooth of local polynomials (((n mod 64)-32)/8)^k, k = 1..degree, every output frame whose window lies inside one tooth, to 6 eps (f32) of the largest sample in the window. Non-trivial = more than 16 frames compared".into()
+        "full product of degree(5) x ratio (also 4 ratios reached by set_resample_ratio_relative without ramp on the fresh resampler) x {FastFixedIn, FastFixedOut} x chunk x {f32,f64} x monomial (n/64)^k for k = 0..degree (must be exact to rounding) and k = degree+1 (must equal the polynomial through exactly the documented nodes, error term prod(t-node)/64^k included), every output frame of six chunks whose window lies in supplied data; Nearest: the input sample at or just before the instant, bit-exact; four tones against the classical bound C_d*(pi f)^(d+1); large chunks (4096, 32768 and 100000 frames): sawtooth of local polynomials (((n mod 64)-32)/8)^k, k = 1..degree, every output frame whose window lies inside one tooth, to 6 eps (f32) of the largest sample in the window. Non-trivial = more than 16 frames compared".into()
     }
     fn assumptions(&self) -> Vec<String> {
         vec![
